@@ -12,6 +12,16 @@ package obialign
 //   (ii)  every overlap geometry (la, lb, offset; containment, identical starts, overlap 0..) of reads cut
 //         from prefixes of two fixed source sequences, error free and with one substitution at every position
 //   (iii) every ordered pair / triple of calls from a fixed call subset on one shared arena + shift buffer
+//   (iv)  the geometries of (ii) at short fragment lengths with ONE INDEL error: one base deleted at every
+//         position / one base inserted at every position of either read (fast mode then works on a band
+//         around a diagonal that is right for a part of the overlap only)
+//   (v)   LONG reads (fragments of 60, thorough 40/60/100) cut from two long sources (all 4-mers distinct;
+//         tandem repeats + homopolymers) in structured geometry families (every overlap length for six read
+//         lengths, containment at every offset for four lengths, both orders) x error free / one
+//         substitution / deletion / insertion at the ends and the middle of either read
+//   (vi)  the single-scheme entry points PELeftAlign / PERightAlign with NilPEAlignArena on every pair of
+//         (i): score == optimum of that scheme in the independent DP == score along the returned path
+//   In (iv) and (v) BuildQualityConsensus is also called with statOnMismatch=false: same consensus.
 //
 // Oracle: the harness's own forward DP (cross-checked against brute-force enumeration of all alignments
 // for short reads), its own path walker and its own 4-mer diagonal count.  The scoring tables and the gap
@@ -67,7 +77,12 @@ type c08res struct {
 	ConsSeq   string
 	ConsQual  []byte
 	Match     int
+	// second consensus built with statOnMismatch=false (sections iv, v), "" = not run
+	NoStatDiff string
 }
+
+// c08noStat: also build the consensus with statOnMismatch=false and compare (set by sections iv and v)
+var c08noStat bool
 
 func c08bytes(q []int) []byte {
 	out := make([]byte, len(q))
@@ -115,6 +130,13 @@ func c08run(c c08call, sa, sb *obiseq.BioSequence, arena PEAlignArena, shifts *m
 		res.ConsSeq = string(cons.Sequence())
 		res.ConsQual = append([]byte(nil), cons.Qualities()...)
 		res.Match = match
+		if c08noStat {
+			cons2, match2 := BuildQualityConsensus(sa, sb, res.Path, false, arena)
+			if string(cons2.Sequence()) != res.ConsSeq || string(cons2.Qualities()) != string(res.ConsQual) || match2 != match {
+				res.NoStatDiff = fmt.Sprintf("statOnMismatch=true: %q %v match=%d; statOnMismatch=false: %q %v match=%d",
+					res.ConsSeq, res.ConsQual, match, cons2.Sequence(), []byte(cons2.Qualities()), match2)
+			}
+		}
 	}()
 	return
 }
@@ -476,6 +498,9 @@ func c08check(r *verifkit.Result, c *c08call, res *c08res, orc *c08oracle, u str
 		add("BuildQualityConsensus/panic", "panics on valid path %v: %s", res.Path, res.ConsPanic)
 		return
 	}
+	if res.NoStatDiff != "" {
+		add("BuildQualityConsensus/consensus-depends-on-statOnMismatch", "path %v: %s", res.Path, res.NoStatDiff)
+	}
 	if res.ConsDone {
 		if len(res.ConsSeq) != len(colA) || len(res.ConsQual) != len(colA) {
 			add("BuildQualityConsensus/column-count", "path %v has %d columns, consensus has %d bases and %d qualities",
@@ -749,9 +774,250 @@ func (x *c08runner) evalSingle(kind string, c c08call, sa, sb *obiseq.BioSequenc
 	if len(res.Path) > 2 {
 		r.Count("paths_with_several_runs", 1)
 	}
+	if c.Fast && len(res.Path) >= 6 {
+		for p := 2; p+2 < len(res.Path); p += 2 {
+			if res.Path[p] != 0 && res.Path[p-1] > 0 && res.Path[p+1] > 0 {
+				r.Count("paths_with_inner_indel_fast", 1)
+				break
+			}
+		}
+	}
 	for _, v := range c08check(r, &c, &res, orc, u, a0, b0) {
 		r.Violate(v.key, v.desc, c08case{Kind: kind, Calls: []c08call{c}, U: u, A0: a0, B0: b0})
 	}
+}
+
+// evalScheme: PELeftAlign / PERightAlign with NilPEAlignArena (the arena is made by the callee).  The reported
+// score must be the optimum of that scheme in the independent DP and the score along the returned path.
+func (x *c08runner) evalScheme(kind string, c c08call, sa, sb *obiseq.BioSequence, orc *c08oracle) {
+	r := x.r
+	qa, qb := c08bytes(c.QA), c08bytes(c.QB)
+	if c08overflowClass(&c) {
+		return
+	}
+	for _, isLeft := range []bool{true, false} {
+		name := "PERightAlign"
+		if isLeft {
+			name = "PELeftAlign"
+		}
+		var score int
+		var path []int
+		pmsg := ""
+		func() {
+			defer func() {
+				if e := recover(); e != nil {
+					pmsg = fmt.Sprint(e)
+				}
+			}()
+			var p []int
+			if isLeft {
+				score, p = PELeftAlign(sa, sb, c.Gap, c.Scale, NilPEAlignArena)
+			} else {
+				score, p = PERightAlign(sa, sb, c.Gap, c.Scale, NilPEAlignArena)
+			}
+			path = append([]int(nil), p...)
+		}()
+		r.Eval(1)
+		r.Trans(1)
+		r.Count("calls_single_scheme_nil_arena", 1)
+		rc := c08case{Kind: "scheme", Calls: []c08call{c}}
+		desc := fmt.Sprintf("A=%s qA=%v B=%s qB=%v gap=%g scale=%g NilPEAlignArena", c.A, c.QA, c.B, c.QB, c.Gap, c.Scale)
+		if pmsg != "" {
+			r.Violate(name+"(nil-arena)/panic", desc+" :: panics: "+pmsg, rc)
+			continue
+		}
+		ca, cb, ok := c08walk(path, len(c.A), len(c.B))
+		if !ok {
+			r.Violate(name+"(nil-arena)/path-consumption", fmt.Sprintf("%s :: path %v consumes %d of A and %d of B", desc, path, ca, cb), rc)
+			continue
+		}
+		if ps := c08pathScore(&c, qa, qb, path, isLeft); ps != score {
+			r.Violate(name+"(nil-arena)/score!=path-score", fmt.Sprintf("%s :: reported score %d, the path %v scores %d", desc, score, path, ps), rc)
+		}
+		if !orc.done {
+			orc.optL, orc.cntL = c08dp(&c, qa, qb, true)
+			orc.optR, orc.cntR = c08dp(&c, qa, qb, false)
+			orc.done = true
+		}
+		opt := orc.optR
+		if isLeft {
+			opt = orc.optL
+		}
+		if score != opt {
+			r.Violate(name+"(nil-arena)/score-not-optimal", fmt.Sprintf("%s :: reported score %d (path %v), independent DP optimum of the scheme %d", desc, score, path, opt), rc)
+		} else {
+			r.Count("single_scheme_optimal", 1)
+		}
+	}
+}
+
+// ---- error variants of a read ----
+
+// c08next: a->c->g->t->a
+func c08next(b byte) byte {
+	switch b {
+	case 'a':
+		return 'c'
+	case 'c':
+		return 'g'
+	case 'g':
+		return 't'
+	}
+	return 'a'
+}
+
+// c08del removes position p
+func c08del(s string, p int) string { return s[:p] + s[p+1:] }
+
+// c08ins inserts before position p (p = len(s): appended) a base differing from its left neighbour
+// (from its right neighbour at p = 0)
+func c08ins(s string, p int) string {
+	ref := s[0]
+	if p > 0 {
+		ref = s[p-1]
+	}
+	return s[:p] + string(c08next(ref)) + s[p:]
+}
+
+type c08variant struct {
+	a, b string
+	what string
+}
+
+// c08indelVariants: one deletion at each listed position (reads of length >= 2) and one insertion before
+// each listed position (and after the last base) of A, then of B.  posA/posB nil = every position.
+func c08indelVariants(a, b string, posA, posB []int) []c08variant {
+	var out []c08variant
+	all := func(n int) []int {
+		p := make([]int, n)
+		for i := range p {
+			p[i] = i
+		}
+		return p
+	}
+	if posA == nil {
+		posA = all(len(a))
+	}
+	if posB == nil {
+		posB = all(len(b))
+	}
+	if len(a) >= 2 {
+		for _, p := range posA {
+			out = append(out, c08variant{c08del(a, p), b, "delA"})
+		}
+	}
+	for _, p := range posA {
+		out = append(out, c08variant{c08ins(a, p), b, "insA"})
+	}
+	out = append(out, c08variant{c08ins(a, len(a)), b, "insA"})
+	if len(b) >= 2 {
+		for _, p := range posB {
+			out = append(out, c08variant{a, c08del(b, p), "delB"})
+		}
+	}
+	for _, p := range posB {
+		out = append(out, c08variant{a, c08ins(b, p), "insB"})
+	}
+	out = append(out, c08variant{a, c08ins(b, len(b)), "insB"})
+	return out
+}
+
+// c08keyPositions: both ends, their neighbours and the middle of a read of length n
+func c08keyPositions(n int, dense bool) []int {
+	seen := map[int]bool{}
+	var out []int
+	add := func(p int) {
+		if p >= 0 && p < n && !seen[p] {
+			seen[p] = true
+			out = append(out, p)
+		}
+	}
+	for _, p := range []int{0, 1, n / 2, n - 2, n - 1} {
+		add(p)
+	}
+	if dense {
+		for p := 3; p < n; p += 4 {
+			add(p)
+		}
+	}
+	return out
+}
+
+type c08geo struct{ a0, la, b0, lb int }
+
+// c08allGeometries: every (a0, la, b0, lb) of two reads cut from a fragment of length L such that one read
+// starts the fragment: A first (B ends the fragment, or lies anywhere inside A when A is the whole
+// fragment), then B first (symmetric).
+func c08allGeometries(L int) []c08geo {
+	var geos []c08geo
+	for la := 1; la <= L; la++ {
+		if la < L {
+			for b0 := 0; b0 <= la; b0++ { // overlap la-b0 >= 0, B ends the fragment
+				geos = append(geos, c08geo{0, la, b0, L - b0})
+			}
+		} else {
+			for b0 := 0; b0 < L; b0++ { // B anywhere inside A (containment, identical starts/ends)
+				for lb := 1; lb <= L-b0; lb++ {
+					geos = append(geos, c08geo{0, la, b0, lb})
+				}
+			}
+		}
+	}
+	for lb := 1; lb <= L; lb++ {
+		if lb < L {
+			for a0 := 1; a0 <= lb; a0++ {
+				geos = append(geos, c08geo{a0, L - a0, 0, lb})
+			}
+		} else {
+			for a0 := 1; a0 < L; a0++ {
+				for la := 1; la <= L-a0; la++ {
+					geos = append(geos, c08geo{a0, la, 0, lb})
+				}
+			}
+		}
+	}
+	return geos
+}
+
+// c08familyGeometries: structured families for long fragments: every overlap length for six lengths of
+// the first read, containment at every offset for four lengths of the inner read, in both orders.
+func c08familyGeometries(L int) []c08geo {
+	var geos []c08geo
+	seen := map[c08geo]bool{}
+	add := func(g c08geo) {
+		if g.la >= 1 && g.lb >= 1 && !seen[g] {
+			seen[g] = true
+			geos = append(geos, g)
+		}
+	}
+	for _, l1 := range []int{L - 1, L - 5, 2 * L / 3, L / 2, 20, 7} {
+		if l1 < 1 || l1 >= L {
+			continue
+		}
+		for o := 0; o <= l1; o++ {
+			add(c08geo{0, l1, o, L - o}) // A = u[:l1], B = u[o:]
+			if o >= 1 {
+				add(c08geo{o, L - o, 0, l1}) // B = u[:l1], A = u[o:]
+			}
+		}
+	}
+	for _, l2 := range []int{3, 4, 11, L / 2} {
+		for o := 0; o+l2 <= L; o++ {
+			add(c08geo{0, L, o, l2}) // B inside A
+			if o >= 1 {
+				add(c08geo{o, l2, 0, L}) // A inside B
+			}
+		}
+	}
+	return geos
+}
+
+// c08longSources: [0] 100 consecutive bases of the de Bruijn sequence (all 4-mers distinct);
+// [1] tandem repeats, homopolymers and a repeated 14-mer (ties and near ties between diagonals)
+func c08longSources() []string {
+	db := c08deBruijn()
+	return []string{db[60:160],
+		"gattacctgattacaaaagcatgcgattacgt" + "acacacacacac" + "ggtctagattacctgatt" + "aaaaaaaat" + "cgcatgcgattacgtcca" + "tgtgtgtgcag"}
 }
 
 func c08sameRes(a, b *c08res) string {
@@ -839,7 +1105,11 @@ func TestVerifC08(t *testing.T) {
 		}
 		if c.Kind == "history" {
 			x.evalHistory(c.Calls, nil)
+		} else if c.Kind == "scheme" {
+			cc := c.Calls[0]
+			x.evalScheme(c.Kind, cc, c08mkseq("A", cc.A, cc.QA), c08mkseq("B", cc.B, cc.QB), &c08oracle{})
 		} else {
+			c08noStat = c.Kind == "indel" || c.Kind == "long"
 			x.evalSingle(c.Kind, c.Calls[0], nil, nil, &c08oracle{}, c.U, c.A0, c.B0)
 		}
 		return
@@ -896,6 +1166,10 @@ func TestVerifC08(t *testing.T) {
 							_ = ci
 							// the optimum oracle is needed by exact mode only; make sure it is filled first
 							x.evalSingle(kind, c, sa, sb, &orcs[oi], "", 0, 0)
+							if !cf.Fast && (pat == "u40" || pat == "alt" || pat == "u93") {
+								// (vi) the two single-scheme entry points, no arena given
+								x.evalScheme(kind, c, sa, sb, &orcs[oi])
+							}
 						}
 					}
 				}
@@ -1098,10 +1372,123 @@ func TestVerifC08(t *testing.T) {
 
 		return true
 	}
+	// evalVariant: one read pair x quality patterns x every configuration, fresh arena each
+	allCfgs := c08configs([]int{0, 2})
+	evalVariant := func(kind, va, vb, vu string, a0, b0 int, pats []string) {
+		for _, pat := range pats {
+			qa, qb := c08quals(pat, len(va), false), c08quals(pat, len(vb), true)
+			sa, sb := c08mkseq("A", va, qa), c08mkseq("B", vb, qb)
+			var orcs [6]c08oracle
+			for _, cf := range allCfgs {
+				c := c08call{A: va, B: vb, QA: qa, QB: qb, Fast: cf.Fast, Rel: cf.Rel, Delta: cf.Delta, Gap: cf.Gap, Scale: cf.Scale}
+				oi := 0
+				if cf.Gap == 2 {
+					oi += 2
+				} else if cf.Gap == 0.5 {
+					oi += 4
+				}
+				if cf.Scale == 0.5 {
+					oi++
+				}
+				x.evalSingle(kind, c, sa, sb, &orcs[oi], vu, a0, b0)
+			}
+		}
+	}
+	secIV := func() bool {
+		// ---------- (iv) all overlap geometries, one indel error ----------
+		c08noStat = true
+		defer func() { c08noStat = false }()
+		lmin, lmaxU := 8, 11
+		if thorough {
+			lmaxU = 16
+		}
+		ipats := []string{"alt", "u93"}
+		if thorough {
+			ipats = []string{"u40", "alt", "u93", "ramp"}
+		}
+		r.Bound("iv_indel_fragment_lengths", fmt.Sprintf("%d..%d (prefixes of each source of ii); one deletion at every position, one insertion before every position and at the end, of A then of B", lmin, lmaxU))
+		r.Bound("iv_quality_patterns", ipats)
+		for _, src := range srcs {
+			for L := lmin; L <= lmaxU; L++ {
+				u := src[:L]
+				for _, g := range c08allGeometries(L) {
+					if !r.Mine(k) {
+						k++
+						continue
+					}
+					k++
+					a, b := u[g.a0:g.a0+g.la], u[g.b0:g.b0+g.lb]
+					r.State(fmt.Sprintf("indel:%s:%d:%d:%d:%d", u, g.a0, g.la, g.b0, g.lb))
+					for _, v := range c08indelVariants(a, b, nil, nil) {
+						r.Count("indel_variants_"+v.what, 1)
+						evalVariant("indel", v.a, v.b, "", 0, 0, ipats)
+					}
+					if r.Expired() {
+						return false
+					}
+				}
+			}
+		}
+		return true
+	}
+	secV := func() bool {
+		// ---------- (v) long reads, structured families ----------
+		c08noStat = true
+		defer func() { c08noStat = false }()
+		lsrc := c08longSources()
+		Ls := []int{60}
+		if thorough {
+			Ls = []int{40, 60, 100}
+		}
+		r.Bound("v_long_sources", lsrc)
+		r.Bound("v_long_fragment_lengths", Ls)
+		r.Bound("v_long_geometries", "first read of length L-1, L-5, 2L/3, L/2, 20, 7 x every overlap 0..length, both orders; inner read of length 3, 4, 11, L/2 at every offset of the whole fragment, both orders")
+		r.Bound("v_long_variants", "error free (u40, alt, ramp); one substitution / deletion / insertion at positions 0, 1, n/2, n-2, n-1 (thorough: + every 4th) of either read (alt, u93)")
+		for _, src := range lsrc {
+			for _, L := range Ls {
+				u := src[:L]
+				for _, g := range c08familyGeometries(L) {
+					if !r.Mine(k) {
+						k++
+						continue
+					}
+					k++
+					a, b := u[g.a0:g.a0+g.la], u[g.b0:g.b0+g.lb]
+					r.State(fmt.Sprintf("long:%s:%d:%d:%d:%d", u, g.a0, g.la, g.b0, g.lb))
+					r.Count("long_geometries", 1)
+					if c08max(g.la, g.lb) > 24 {
+						r.Count("long_geometries_with_a_read_over_24", 1)
+					}
+					evalVariant("long", a, b, u, g.a0, g.b0, []string{"u40", "alt", "ramp"})
+					pa, pb := c08keyPositions(len(a), thorough), c08keyPositions(len(b), thorough)
+					vpats := []string{"alt", "u93"}
+					for _, p := range pa {
+						evalVariant("long", c08subst(a, p), b, "", 0, 0, vpats)
+					}
+					for _, p := range pb {
+						evalVariant("long", a, c08subst(b, p), "", 0, 0, vpats)
+					}
+					for _, v := range c08indelVariants(a, b, pa, pb) {
+						r.Count("indel_variants_"+v.what, 1)
+						evalVariant("long", v.a, v.b, "", 0, 0, vpats)
+					}
+					if r.Expired() {
+						return false
+					}
+				}
+			}
+		}
+		return true
+	}
 	// cheap sections first: under an internal deadline the bulk section (i) is the one cut short
-	if !secIII() || !secII() || !secI() {
+	if !secIII() || !secIV() || !secV() || !secII() || !secI() {
 		return
 	}
+	r.RequireNonVacuous("indel_variants_delA")
+	r.RequireNonVacuous("indel_variants_insB")
+	r.RequireNonVacuous("long_geometries_with_a_read_over_24")
+	r.RequireNonVacuous("single_scheme_optimal")
+	r.RequireNonVacuous("paths_with_inner_indel_fast")
 	r.RequireNonVacuous("valid_paths")
 	r.RequireNonVacuous("fast_dp_branch")
 	r.RequireNonVacuous("fast_identical_branch")
